@@ -1669,6 +1669,13 @@ class Interp:
         if name in ("isinstance", "hasattr", "callable", "issubclass", "type", "id", "print", "repr", "str", "bool"):
             if name == "str" and a0 is not None and a0.is_const:
                 return const(str(a0.data))
+            if name == "isinstance" and a0 is not None and a0.is_const and a0.data is not NOFOLD and not a0.deps \
+                    and isinstance(node, ast.Call) and len(node.args) == 2:
+                tn = node.args[1]
+                tns = tn.elts if isinstance(tn, ast.Tuple) else [tn]
+                bt = {"bool": bool, "int": int, "float": float, "str": str, "list": list, "tuple": tuple, "dict": dict, "set": set}
+                if all(isinstance(x, ast.Name) and x.id in bt for x in tns):
+                    return const(isinstance(a0.data, tuple(bt[x.id] for x in tns)))
             return AV(alld, "val", None, sh.S(sh.PURE))
         if name in ("int", "float", "complex", "abs"):
             if a0 is None:
